@@ -77,7 +77,9 @@ static int leaks_mode;
 void verif_alloc_suspend(void);
 void verif_alloc_resume(void);
 unsigned long verif_alloc_live(void);
-#define LB() printf(" lb=%lu", verif_alloc_live())
+unsigned long verif_alloc_requests(void);
+/* lb = live heap blocks of the library; rq = allocation requests made so far (tells in which call the failing one fell) */
+#define LB() printf(" lb=%lu rq=%lu", verif_alloc_live(), verif_alloc_requests())
 #define SUSPEND() verif_alloc_suspend()
 #define RESUME() verif_alloc_resume()
 #else
